@@ -110,7 +110,7 @@ Definition detach_obj (to_transient : bool) (o : obj) : obj * list oentry :=
   let deleted := odel o in
   let pending := negb (okey o) in
   let persistent := negb pending && negb deleted in
-  let o' := set_key (okey o && negb to_transient) (set_sess false o) in
+  let o' := set_del (odel o && negb to_transient) (set_key (okey o && negb to_transient) (set_sess false o)) in
   (o', chg o o' ++
        (if persistent then [OEv (if to_transient then S2T else S2X) (lc_of o')]
         else if deleted then [OEv D2X (lc_of o')]
@@ -178,7 +178,7 @@ Definition update_impl (i : nat) (st : state) : state * Z :=
 Definition revert_obj (o : obj) : obj * list oentry :=
   let o1 := if odel o then set_del false o else o in
   let o2 := set_iimap true (set_isdel false o1) in
-  if osess o then (o2, chg o o1 ++ [OEv D2S (lc_of o2)])
+  if osess o then (o2, chg o o1 ++ (if odel o then [OEv D2S (lc_of o2)] else []))
   else let (o3, e3) := after_attach o2 in (o3, chg o o1 ++ e3).
 Definition revert_impl (i : nat) (st : state) : state * Z :=
   let o := get st i in
@@ -350,10 +350,10 @@ Definition do_rollback (e : env) (st : state) : state * Z :=
   end.
 
 (* Session.close -> expunge_all, then the transaction is closed (no snapshot restore) *)
-Definition close_obj (o : obj) : obj * list oentry :=
+Definition close_obj (has_tx : bool) (o : obj) : obj * list oentry :=
   let o1 := set_isdel false (set_inew false (set_iimap false o)) in
-  if iimap o || inew o then detach_obj false o1 else (o1, []).
-Definition do_close (st : state) : state * Z := (end_tx (app_all (fun _ => close_obj) st), 0).
+  if iimap o || inew o || (has_tx && itdel o && odel o && osess o) then detach_obj false o1 else (o1, []).
+Definition do_close (st : state) : state * Z := (end_tx (app_all (fun _ => close_obj (has_tx st)) st), 0).
 
 Definition make_transient_obj (has_tx : bool) : obj -> obj * list oentry :=
   andthen (fun o => if osess o then expunge_obj has_tx false o else (o, []))
